@@ -163,6 +163,7 @@ int main(int argc, char **argv)
       {"k-staged", K_STAGED, 2, 2, 0, 1.0, false, {}},
       {"k-staged-equil1-exp2", K_STAGED, 3, 2, 1, 2.0, false, {}},
       {"k-lambdaSchedule", K_SCHED, 2, 2, 0, 1.0, false, {0.0, 0.3, 1.0}},
+      {"k-lambdaSchedule-exp3-nonzero-start", K_SCHED, 2, 2, 0, 3.0, false, {0.2, 0.5, 1.0}},
       {"decoupling-continuous", D_CONT, 4, 0, 0, 2.0, true, {}},
       {"decoupling-staged", D_STAGED, 2, 3, 0, 1.0, false, {}},
       {"walls-k-continuous", W_KCONT, 4, 0, 0, 1.0, true, {}},
